@@ -147,18 +147,41 @@ def strip_ts(d):
     return d
 
 
+def deep_order(v, mode):
+    """The same JSON value with the keys of every object, at every depth, sorted or reversed."""
+    if isinstance(v, dict):
+        keys = sorted(v) if mode == "sorted" else list(reversed(sorted(v))) if mode == "reverse-sorted" else list(reversed(list(v)))
+        return {k: deep_order(v[k], mode) for k in keys}
+    if isinstance(v, list):
+        return [deep_order(x, mode) for x in v]
+    return v
+
+
 def c18_task(n_targets):
     s = sc.Scratch("c18cli")
     try:
         ports = (s.port(), s.port())
         val = cfg_value(n_targets, None, ports)
         val["out_dir"] = "build/mr-out"
-        val["sequences"] = {"dev/all": ["build", "test"]}
+        val["sequences"] = {"dev/all": ["build", "test"], "a/first": ["zeta"]}
+        # objects with several keys below the top level, written in an order that is neither
+        # ascending nor descending: command definitions with explicit paths outside the default directory
+        t0, t1 = val["targets"][0], val["targets"][1]
+        t0["commands"] = {"definitions": {"mid": {"path": "tools/t0/mid.sh"}, "zeta": {"path": "tools/t0/zeta.sh"}, "build": {"path": "tools/t0/build.sh"}}}
+        t1["commands"] = {"path": "cmds", "definitions": {"build": {}, "zeta": {"path": "x/zeta-impl.sh"}, "alpha": {"path": "x/alpha.sh"}}}
         r = sc.Repo(s, "r", val["targets"], ports=False, init_git=False)
+        for c_ in ("mid", "zeta", "build"):
+            r.command_file(t0["path"], c_, "x", cmd_dir="tools/t0", name=c_ + ".sh")
+        r.command_file(t1["path"], "build", "x", cmd_dir="cmds", name="build.sh")
+        r.command_file(t1["path"], "zeta", "x", cmd_dir="x", name="zeta-impl.sh")
+        r.command_file(t1["path"], "alpha", "x", cmd_dir="x", name="alpha.sh")
         compact = json.dumps(val, separators=(",", ":"))
         pretty = json.dumps(val, indent=2)
         rev = json.dumps({k: val[k] for k in reversed(list(val))}, indent=1)
         sers = [("compact", compact), ("pretty", pretty), ("reversed-keys", rev), ("crlf", pretty.replace("\n", "\r\n")), ("tabs", json.dumps(val, indent="\t"))]
+        sers.append(("deep-sorted-keys", json.dumps(deep_order(val, "sorted"), indent=1)))
+        sers.append(("deep-reverse-sorted-keys", json.dumps(deep_order(val, "reverse-sorted"), separators=(",", ":"))))
+        sers.append(("deep-reversed-keys", json.dumps(deep_order(val, "reversed"), indent=3)))
         # the same strings spelled with JSON escapes
         sers.append(("escaped-solidus", compact.replace("/", "\\/")))
         sers.append(("unicode-escapes", compact.replace("p", "\\u0070").replace("t", "\\u0074")))
@@ -177,18 +200,43 @@ def c18_task(n_targets):
         for name, text in sers:
             r.write("Monorail.json", text)
             outs = []
-            for api, argv in (("config show", ["config", "show"]), ("analyze", ["analyze", "--target-groups"]), ("target show", ["target", "show", "-g"])):
-                res = r.mr(*argv)
+            apis = [("config show", ["config", "show"]), ("analyze", ["analyze", "--target-groups"]), ("target show", ["target", "show", "-g"]),
+                    ("target show -c", ["target", "show", "--commands"])]
+            if len(text) < 20000 or name.startswith("pad200001"):
+                # what is executed: every defined command of the two targets with definitions, by name
+                apis.append(("run", ["run", "-c", "mid", "zeta", "build", "alpha", "-t", t0["path"], t1["path"]]))
+            for api, argv in apis:
+                if api == "run":
+                    r.clear_traces()
+                    res = r.mr(*argv, env=r.trace_env())
+                else:
+                    res = r.mr(*argv)
                 judged += 1
                 if res.code != 0:
                     v.append(("serialisation-rejected" + (":larger-than-io-buffer" if len(text) > 8192 else ""), "%s with serialisation %s (%d bytes): exit %s %s" % (api, name, len(text), res.code, res.err[:200])))
                     outs.append(None)
+                elif api == "run":
+                    d = strip_ts(res.json()) or {}
+                    d.pop("out", None)
+                    for cr in d.get("results", []):
+                        flat = {}
+                        for g in cr.get("target_groups", []):
+                            for tn, tv in g.items():
+                                tv.pop("runtime_secs", None)
+                                flat[tn] = tv
+                        # with -t the order of the one-target groups is unspecified (set iteration order)
+                        cr["target_groups"] = flat
+                    started = sorted((os.path.relpath(rec["cwd"], r.dir), os.path.relpath(rec["argv"][0], r.dir)) for rec in r.traces())
+                    outs.append({"doc": d, "started": started})
                 else:
                     outs.append(strip_ts(res.json()))
             if ref is None:
                 ref = outs
-            elif outs != ref and None not in outs:
+            elif None not in outs and outs[:4] != ref[:4]:
                 v.append(("serialisation-changes-output", "serialisation %s (%d bytes) changes API output" % (name, len(text))))
+            elif None not in outs and len(outs) > 4 and outs[4] != ref[4]:
+                v.append(("serialisation-changes-run", "serialisation %s (%d bytes): run started %s and reported %s; with serialisation compact it started %s and reported %s" % (
+                    name, len(text), outs[4]["started"], json.dumps(outs[4]["doc"].get("results"))[:300], ref[4]["started"], json.dumps(ref[4]["doc"].get("results"))[:300])))
         # the same value after the environment changed under it (every serialisation above has been
         # accepted once by now): a target directory loses its files, then disappears. Whatever each API
         # answers now - acceptance or rejection - must again be the same for every serialisation.
